@@ -70,6 +70,7 @@ def features(schema_name):
     f = {
         "derive_pe": ({"derives": ["PartialEq"]}, ["--additional-derive", "PartialEq"], "derives = [PartialEq]"),
         "derive_pe_eq": ({"derives": ["PartialEq", "Eq"]}, ["-a", "PartialEq", "-a", "Eq"], "derives = [PartialEq, Eq]"),
+        "derive_abs": ({"derives": ["::schemars::JsonSchema"]}, ["--additional-derive", "::schemars::JsonSchema"], "derives = [::schemars::JsonSchema]"),   # a GLOBAL path
         "derive_path": ({"derives": ["schemars::JsonSchema"]}, ["--additional-derive", "schemars::JsonSchema"], "derives = [schemars::JsonSchema]"),
         "map_btree": ({"map_type": "::std::collections::BTreeMap"}, ["--map-type", "::std::collections::BTreeMap"], 'map_type = "::std::collections::BTreeMap"'),
         # the same map types in the spellings users write: without the leading `::`
@@ -94,6 +95,7 @@ def features(schema_name):
     tgt = {"example": ("Fruit", "Veggie"), "xrt": ("User", "User"), "rep1": ("Kind", "Holder"), "rep2": ("Sm", "Rooted")}[schema_name]
     f["patch"] = ({"patch": {tgt[1]: {"rename": "Renamed", "derives": ["PartialEq"]}}}, None, 'patch = { %s = { rename = "Renamed", derives = [PartialEq] } }' % tgt[1])
     # the same multi-segment derive given globally and in a patch: both spellings must dedupe
+    f["patch_abs"] = ({"patch": {tgt[1]: {"derives": ["::schemars::JsonSchema"]}}}, None, 'patch = { %s = { derives = [::schemars::JsonSchema] } }' % tgt[1])
     f["patch_path"] = ({"patch": {tgt[1]: {"derives": ["schemars::JsonSchema"]}}}, None, 'patch = { %s = { derives = [schemars::JsonSchema] } }' % tgt[1])
     for sub in itertools.chain.from_iterable(itertools.combinations(["FromStr", "Display", "Default"], r) for r in range(4)):
         mods = []
@@ -128,7 +130,7 @@ def merge_settings(parts):
     return st
 
 
-EXCLUSIVE = [("derive_pe", "derive_pe_eq"), ("map_btree", "map_vmap"), ("map_btree", "map_btree_rel"), ("map_btree", "map_vmap_rel"), ("map_vmap", "map_btree_rel"), ("map_vmap", "map_vmap_rel"),
+EXCLUSIVE = [("derive_abs", "derive_path"), ("patch_abs", "patch_path"), ("patch_abs", "patch"), ("derive_pe", "derive_pe_eq"), ("map_btree", "map_vmap"), ("map_btree", "map_btree_rel"), ("map_btree", "map_vmap_rel"), ("map_vmap", "map_btree_rel"), ("map_vmap", "map_vmap_rel"),
              ("map_btree_rel", "map_vmap_rel"), ("unk_allow", "unk_deny"), ("unk_allow", "unk_generate"), ("unk_deny", "unk_generate")]
 
 
